@@ -501,3 +501,57 @@ def eq_cases(base_id=500000):
             cid += 1
             cases.append(_case(cid, prog, "bool", runs))
     return cases
+
+
+def aggcopy_cases(base_id=600000):
+    """Directed family: aggregates of every size 1..48 bytes that are moved as a whole (bound by `let`, passed to
+    a function, returned through the return slot, stored as a field of a bigger record, assigned over an existing
+    value) and then read field by field.  Field mixtures: n equal fields of 1/2/4/8 bytes (n = 1..6) and mixed
+    sequences whose total size is not a multiple of 4 or 8.  Every field value is an input, so each byte of the
+    aggregate is distinguishable; every field is emitted to the host log after the moves and the last one decides
+    the (scalar) result.  Expected values come from RotoSem."""
+    cases = []
+    cid = base_id
+    shapes = [[t] * n for t in ("u8", "u16", "u32", "u64") for n in (1, 2, 3, 5, 6)]
+    shapes += [["u8", "u32", "u8"], ["u32", "u16"], ["u64", "u8"], ["u16", "u8", "u8", "u32", "u8"], ["u64", "u32"],
+               ["u32", "u64", "u16"], ["u8", "u8", "u8"], ["u64", "u64", "u32", "u8"]]
+    for si, shape in enumerate(shapes):
+        n = len(shape)
+        rname, wname = "G%d" % si, "W%d" % si
+        rdecl = {"k": "record", "n": rname, "ps": [], "fs": [["f%d" % i, shape[i]] for i in range(n)]}
+        wdecl = {"k": "record", "n": wname, "ps": [], "fs": [["h", "u8"], ["g", ["named", rname, []]], ["t", "u16"]]}
+        rty, wty = ["named", rname, []], ["named", wname, []]
+        ps = ["a%d" % i for i in range(n)]
+        mk = {"ps": ps, "pts": list(shape), "rt": rty,
+              "b": A.block([], {"k": "rec", "name": rname, "fs": [["f%d" % i, A.var(ps[i])] for i in range(n)]})}
+        passf = {"ps": ["r"], "pts": [rty], "rt": rty, "b": A.block([], A.var("r"))}
+        ins = [A.host("in", shape[i], i, []) for i in range(n)]
+        ins2 = [A.host("in", shape[i], n + i, []) for i in range(n)]
+        last = n - 1
+        for form in ("let_pass", "wrap", "assign"):
+            if form == "let_pass":
+                ss = [A.let("x", rty, {"k": "call", "f": "mk", "args": ins}), A.let("y", rty, A.var("x")),
+                      A.let("z", rty, {"k": "call", "f": "pass", "args": [A.var("y")]})]
+                src = A.var("z")
+            elif form == "wrap":
+                ss = [A.let("x", rty, {"k": "call", "f": "mk", "args": ins}),
+                      A.let("w", wty, {"k": "rec", "name": wname, "fs": [["h", A.ilit("u8", 7)], ["g", A.var("x")], ["t", A.ilit("u16", 9)]]}),
+                      A.let("v", wty, A.var("w")), A.let("z", rty, {"k": "field", "e": A.var("v"), "f": "g"})]
+                src = A.var("z")
+            else:
+                ss = [A.let("z", rty, {"k": "call", "f": "mk", "args": ins2}),
+                      {"k": "set", "p": ["z"], "e": {"k": "call", "f": "mk", "args": ins}}]
+                src = A.var("z")
+            tag = 50
+            for i in range(n):
+                ss.append(A.host("emit", shape[i], tag + i, [{"k": "field", "e": src, "f": "f%d" % i}]))
+            res = A.binop("eq", shape[last], {"k": "field", "e": src, "f": "f%d" % last}, A.host("in", shape[last], 2 * n, []))
+            prog = {"types": [rdecl, wdecl], "fns": {"mk": mk, "pass": passf, "main": {"ps": [], "pts": [], "rt": "bool", "b": A.block(ss, res)}}}
+            runs = []
+            for k in range(2):
+                vals = [{"ty": shape[i], "v": A.int_bytes(shape[i], (A.ty_max(shape[i]) - 3 * i - k) if (i + k) % 2 == 0 else (17 * (i + 1) + k))} for i in range(n)]
+                vals2 = [{"ty": shape[i], "v": A.int_bytes(shape[i], 1 + i)} for i in range(n)]
+                runs.append(vals + vals2 + [vals[last] if k == 0 else {"ty": shape[last], "v": A.int_bytes(shape[last], 5)}])
+            cid += 1
+            cases.append(_case(cid, prog, "bool", runs))
+    return cases
